@@ -182,6 +182,12 @@ func Execute(t *testing.T, sc *Scenario, dec *Decider, obs ...Observer) (*RunRes
 		panic(err)
 	}
 
+	// nothing of an earlier run may survive in the shared working directory
+	if ents, err := os.ReadDir(filepath.Join(BaseDir, "cwd")); err == nil {
+		for _, e := range ents {
+			_ = os.RemoveAll(filepath.Join(BaseDir, "cwd", e.Name()))
+		}
+	}
 	if sc.Knobs.RelRepo {
 		// simulated runs are executed one after the other, so the working
 		// directory of the test process can stand for the one of the csvq process
